@@ -4,12 +4,18 @@ import Reduino.Basic
   `_handle_assignment_ast`, `_merge_return_types`) against Python's dynamic values and C++'s static typing.
 
   * `V α`      Python values: bool, int, float (carrier α), str.
-  * `eval`     Python evaluation of an expression (`none` = the exception Python raises: NameError, TypeError, ZeroDivisionError).
-  * `infer`    `_infer_expr_type` on the same expressions (a name without a recorded type is "int").
+  * `E α`      expressions, including the builtin calls `abs(a)`, `min(a, b)`, `max(a, b)`, `int(a)`, `float(a)`, `bool(a)` as
+               fixed-arity constructors (`min`/`max` of more arguments are the left fold the emitter produces; `str()` is not modelled).
+  * `eval`     Python evaluation of an expression (`none` = the exception Python raises: NameError, TypeError, ZeroDivisionError;
+               also `min`/`max`/`int`/`float` on str operands, whose ordering / numeral parsing is not modelled).
+  * `infer`    `_infer_expr_type` on the same expressions (a name without a recorded type is "int"; a builtin call has the type
+               `_BUILTIN_CALL_RETURN_TYPES` lists for it WHATEVER its arguments: `builtinRet`, tied to the source table by GenOb/Types.lean).
   * `declare`  the pass over the assignments IN SOURCE ORDER, whatever block they sit in: the first assignment to a name fixes
                the declared C++ type, every assignment updates the type used to infer later expressions.
   * `evalC`    C++ evaluation with static types (usual arithmetic conversions, `&&`/`||`/`!` give bool, `?:` converts to the
                common type, int / int truncates), and `conv`, the implicit conversion at a store into a declared variable.
+               Builtins as emitted: `abs(x)` / `min(a,b)` / `max(a,b)` are the Arduino macros `((x)>0?(x):-(x))`, `((a)<(b)?(a):(b))`,
+               `((a)>(b)?(a):(b))` (so the `?:` conversions apply), `int/float/bool(x)` are `static_cast`s (= `conv`).
   A program is a list of assignments; an execution is ANY sequence of its assignments (any branch choices, any number of loop
   iterations) — the declared types do not depend on it.
 -/
@@ -46,6 +52,12 @@ inductive E (α : Type) where
   | and (a b : E α)
   | or (a b : E α)
   | ite (c a b : E α)
+  | abs (a : E α)              -- `abs(a)`
+  | min (a b : E α)            -- `min(a, b)`
+  | max (a b : E α)            -- `max(a, b)`
+  | toInt (a : E α)            -- `int(a)`
+  | toFloat (a : E α)          -- `float(a)`
+  | toBool (a : E α)           -- `bool(a)`
   deriving Repr
 
 /-- value order of the Python numeric tower as C++ can hold it without loss: bool ≤ int ≤ float; str on its own -/
@@ -67,6 +79,12 @@ def TEnv.set (g : TEnv) (x : String) (t : T) : TEnv := (x, t) :: g.filter (·.1 
 
 /-! ### `_infer_expr_type` -/
 
+/-- the modelled rows of `_BUILTIN_CALL_RETURN_TYPES` (parser.py), as the strings the table holds -/
+def builtinRet : List (String × T) :=
+  [("abs", .int), ("bool", .bool), ("float", .float), ("int", .int), ("max", .int), ("min", .int)]
+
+def T.cname : T → String | .bool => "bool" | .int => "int" | .float => "float" | .str => "String"
+
 def infer {α} (g : TEnv) : E α → T
   | .lit v => v.ty
   | .var x => g.get x
@@ -83,6 +101,13 @@ def infer {α} (g : TEnv) : E α → T
     let l := infer g a
     let r := infer g b
     if l = r then l else if l = .str ∨ r = .str then .str else if l = .float ∨ r = .float then .float else .int
+  -- a `Call` of a builtin: the table entry, whatever the argument types
+  | .abs _ => .int
+  | .min _ _ => .int
+  | .max _ _ => .int
+  | .toInt _ => .int
+  | .toFloat _ => .float
+  | .toBool _ => .bool
 
 /-- `_merge_return_types` over the types of the `return` expressions of one function (no bare `return`):
     `none` = ValueError("conflicting return types") -/
@@ -165,6 +190,35 @@ def cmpN (op : COp) : N α → N α → Bool
     | .le => decide (a.toF ≤ b.toF)
     | .eq => decide (a.toF ≤ b.toF) && decide (b.toF ≤ a.toF)
 
+/-- Python `abs(v)`: keeps the numeric type, a bool becomes an int; TypeError on str -/
+def pyAbs : V α → Option (V α)
+  | .bool b => some (.int (b2i b))
+  | .int n => some (.int (if n < 0 then -n else n))
+  | .flt x => some (.flt (if x < Num.ofInt 0 then -x else x))
+  | .str _ => none
+
+/-- Python `min(x, y)`: one of the OPERANDS (with its own type) — `x` unless `y < x` -/
+def pyMin (x y : V α) : Option (V α) :=
+  match x.num?, y.num? with
+  | some m, some n => some (if cmpN .lt n m then y else x)
+  | _, _ => none
+
+/-- Python `max(x, y)`: `x` unless `x < y` (the first of equal operands, as for `min`) -/
+def pyMax (x y : V α) : Option (V α) :=
+  match x.num?, y.num? with
+  | some m, some n => some (if cmpN .lt m n then y else x)
+  | _, _ => none
+
+/-- Python `int(v)`: truncation toward zero on floats, `int(True) = 1` -/
+def pyInt : V α → Option (V α)
+  | .bool b => some (.int (b2i b))
+  | .int n => some (.int n)
+  | .flt x => some (.int (Num.trunc x))
+  | .str _ => none
+
+/-- Python `float(v)` -/
+def pyFloat (v : V α) : Option (V α) := v.num?.map fun m => .flt m.toF
+
 def eval (s : Store α) : E α → Option (V α)
   | .lit v => some v
   | .var x => s.get x
@@ -203,6 +257,12 @@ def eval (s : Store α) : E α → Option (V α)
     match eval s c with
     | some x => if x.truthy then eval s a else eval s b
     | none => none
+  | .abs a => (eval s a).bind pyAbs
+  | .min a b => (eval s a).bind fun x => (eval s b).bind fun y => pyMin x y
+  | .max a b => (eval s a).bind fun x => (eval s b).bind fun y => pyMax x y
+  | .toInt a => (eval s a).bind pyInt
+  | .toFloat a => (eval s a).bind pyFloat
+  | .toBool a => (eval s a).map fun v => .bool v.truthy
 
 def pyStep (s : Store α) (st : Stmt α) : Option (Store α) := (eval s st.2).map (s.set st.1)
 
@@ -211,6 +271,13 @@ def pyRun : Store α → List (Stmt α) → Option (Store α)
   | s, st :: rest => (pyStep s st).bind fun s' => pyRun s' rest
 
 /-! ### C++ evaluation with static types -/
+
+/-- type of `((a)<(b)?(a):(b))` for operands of types `l`, `r`: the common type of the second and third operand of `?:`
+    (two bools stay bool; String operands are not modelled) -/
+def macroType (l r : T) : Option T :=
+  if l = .str ∨ r = .str then none
+  else if l = r then some l
+  else if l = .float ∨ r = .float then some .float else some .int
 
 /-- static type of an expression for the C++ compiler; `none` = does not type-check in this model -/
 def ctype (g : TEnv) : E α → Option T
@@ -244,6 +311,13 @@ def ctype (g : TEnv) : E α → Option T
       else if l = .str ∨ r = .str then none
       else if l = .float ∨ r = .float then some .float else some .int
     | _, _, _ => none
+  -- `((x)>0?(x):-(x))`: the third operand is promoted, so a bool operand gives an int
+  | .abs a => (ctype g a).bind fun t => match t with | .str => none | .float => some .float | _ => some .int
+  | .min a b => (ctype g a).bind fun l => (ctype g b).bind fun r => macroType l r
+  | .max a b => (ctype g a).bind fun l => (ctype g b).bind fun r => macroType l r
+  | .toInt a => (ctype g a).bind fun t => if t = .str then none else some .int
+  | .toFloat a => (ctype g a).bind fun t => if t = .str then none else some .float
+  | .toBool a => (ctype g a).bind fun t => if t = .str then none else some .bool
 
 /-- C++ implicit conversion of a value to a type (`none` = no such conversion) -/
 def conv (t : T) (v : V α) : Option (V α) :=
@@ -267,6 +341,25 @@ def cArith (op : AOp) : N α → N α → Option (V α)
     | .mul => some (.int (a * b))
     | .div => if b = 0 then none else some (.int (Int.tdiv a b))      -- integer division
   | a, b => (arithF op a.toF b.toF).map .flt
+
+/-- `((x)>0?(x):-(x))` -/
+def cAbs : V α → Option (V α)
+  | .bool b => some (.int (b2i b))                                    -- b>0 ? int(b) : -int(b)
+  | .int n => some (.int (if 0 < n then n else -n))
+  | .flt x => some (.flt (if Num.ofInt 0 < x then x else -x))
+  | .str _ => none
+
+/-- `((a)<(b)?(a):(b))` with `?:` result type `t`: the comparison under the usual arithmetic conversions, the chosen operand converted to `t` -/
+def cMin (t : T) (x y : V α) : Option (V α) :=
+  match x.num?, y.num? with
+  | some m, some n => conv t (if cmpN .lt m n then x else y)
+  | _, _ => none
+
+/-- `((a)>(b)?(a):(b))` -/
+def cMax (t : T) (x y : V α) : Option (V α) :=
+  match x.num?, y.num? with
+  | some m, some n => conv t (if cmpN .lt n m then x else y)
+  | _, _ => none
 
 def evalC (g : TEnv) (s : Store α) : E α → Option (V α)
   | .lit v => some v
@@ -312,6 +405,18 @@ def evalC (g : TEnv) (s : Store α) : E α → Option (V α)
     match evalC g s c, ctype g (.ite c a b) with
     | some x, some t => (if x.truthy then evalC g s a else evalC g s b).bind (conv t)
     | _, _ => none
+  | .abs a => (evalC g s a).bind cAbs
+  | .min a b =>
+    match ctype g (.min a b) with
+    | some t => (evalC g s a).bind fun x => (evalC g s b).bind fun y => cMin t x y
+    | none => none
+  | .max a b =>
+    match ctype g (.max a b) with
+    | some t => (evalC g s a).bind fun x => (evalC g s b).bind fun y => cMax t x y
+    | none => none
+  | .toInt a => (evalC g s a).bind (conv .int)
+  | .toFloat a => (evalC g s a).bind (conv .float)
+  | .toBool a => (evalC g s a).bind (conv .bool)
 
 /-- a store into a declared variable converts to its declared type -/
 def cStep (g : TEnv) (s : Store α) (st : Stmt α) : Option (Store α) :=
@@ -331,8 +436,15 @@ def rep (t : T) (v : V α) : Option (V α) := if sub v.ty t then conv t v else n
 def StoreRep (g : TEnv) (py c : Store α) : Prop :=
   ∀ x v, py.get x = some v → ∃ t, g.lookup x = some t ∧ ∃ vc, rep t v = some vc ∧ c.get x = some vc
 
+/-- a bool- or int-typed operand -/
+def T.isIntegral : T → Bool | .bool => true | .int => true | _ => false
+
 /-- expressions on which `_infer_expr_type` is a sound static type (relative to declared types `g`):
-    no true division of two non-floats, no arithmetic negation of a bool, `and`/`or` only on bools, no str/number mixing -/
+    no true division of two non-floats, no arithmetic negation of a bool, `and`/`or` only on bools, no str/number mixing;
+    `abs`/`min`/`max` (typed int by the table whatever their arguments) only over bool/int-typed operands — a float operand is K02e —
+    and `min`/`max` not over two bool-typed operands (the macro's `?:` then has type bool, not the table's int: the value is
+    still right after the store conversion, but the compiler's type is not the inferred one);
+    `int()`/`float()`/`bool()` over any numeric operand -/
 def Tame (g : TEnv) : E α → Bool
   | .lit _ => true
   | .var x => (g.lookup x).isSome
@@ -350,6 +462,12 @@ def Tame (g : TEnv) : E α → Bool
   | .ite c a b =>
     Tame g c && Tame g a && Tame g b && (infer g c).isNum &&
       (infer g a = infer g b || ((infer g a).isNum && (infer g b).isNum))
+  | .abs a => Tame g a && (infer g a).isIntegral
+  | .min a b => Tame g a && Tame g b && (infer g a).isIntegral && (infer g b).isIntegral && (infer g a = .int || infer g b = .int)
+  | .max a b => Tame g a && Tame g b && (infer g a).isIntegral && (infer g b).isIntegral && (infer g a = .int || infer g b = .int)
+  | .toInt a => Tame g a && (infer g a).isNum
+  | .toFloat a => Tame g a && (infer g a).isNum
+  | .toBool a => Tame g a && (infer g a).isNum
 
 /-- every assignment to a name infers the type the name was declared with (so `var_types` never drifts from the declaration) -/
 def TypeStable (p : List (Stmt α)) : Prop :=
